@@ -271,3 +271,16 @@ Theorem meta_tile_georef_rows_ul :
     nth_error pats k = Some (Some (tx, ty, tl), (ox, oy)) ->
     tl = l /\ snd (ul_offset_ground mb (tile_bbox (mg m) tx ty tl)) = (oy * res_at (mg m) l)%Z.
 Proof. exact meta_tile_georef_y_ul. Qed.
+
+(* The recursion of transform_meshes (is_good / divide_quad), for ANY external transformation and whatever is_good
+   decides: no pixel of the output image lies in more than one mesh quad (nothing is drawn twice, no quad leaves the
+   image) and every mesh quad carries exactly the source corners dst_quad_to_src computes for it (mesh_corner_exact).
+   _partial: that every pixel IS covered needs the recursion to end by is_good (true below 50 px) before the fuel of
+   the model (40 levels) is used up; this is checked by the harness oracle mesh-not-partition, not proved. *)
+Theorem mesh_recursion_partial :
+  forall T Tinv sb sw sh db dw dh off mpe i j,
+    (0 <= dw)%Z -> (0 <= dh)%Z ->
+    (count_in (map fst (transform_meshes T Tinv sb sw sh db dw dh off mpe)) i j <= 1)%nat /\
+    (forall q sq, In (q, sq) (transform_meshes T Tinv sb sw sh db dw dh off mpe) ->
+                  sq = dst_quad_to_src T sb sw sh db dw dh off q).
+Proof. exact transform_meshes_sound. Qed.
